@@ -14,7 +14,7 @@ import ElfioVerif.Props.C02
 set_option linter.unusedSimpArgs false
 set_option linter.unusedVariables false
 namespace ElfioVerif.C15
-open Gen
+open Gen C02
 
 /-! ### the read primitive -/
 
@@ -1509,5 +1509,347 @@ theorem lazy_eq_eager_needs_ok :
     simp only [loadOk, Option.some.injEq] at w
     rw [h2, w.1] at w
     exact absurd w.2 (by simp)
+
+/-! ### address translation: whole load -/
+
+/-- **the container represents the image through the table** : every contiguous range the loader
+    reads on the plain image (ELF header, every section-header and program-header record, every
+    file-occupying section's and every non-empty non-null segment's file range) is represented
+    (`RangeRep`: sits, translated, at a position of the container holding the same bytes;
+    `rangeRep_of_entry` derives this from a table entry that covers the range) -/
+def Represents (cont : Bytes) (tr : List Trans) (img : Bytes) : Prop :=
+  cont.length < 9223372036854775808 ∧
+  RangeRep cont tr img 0 (Spec.ehdrSize (clsOf img)) ∧
+  (∀ i, i < eh img "e_shnum" →
+    RangeRep cont tr img (shBase img i) (Spec.shdrSize (clsOf img)) ∧
+    (occupiesFile (sh img i "sh_type") = true →
+      RangeRep cont tr img (sh img i "sh_offset") (sh img i "sh_size"))) ∧
+  (∀ j, j < eh img "e_phnum" →
+    RangeRep cont tr img (phBase img j) (Spec.phdrSize (clsOf img)) ∧
+    (segHasData img j = true → RangeRep cont tr img (ph img j "p_offset") (ph img j "p_filesz")))
+
+/-- a well-formed image represents itself through the empty table -/
+theorem represents_plain (img : Bytes) (hwf : WellFormedImage img) : Represents img [] img := by
+  obtain ⟨_, _, _, hehs, h63, _, _, hS, hP, _⟩ := hwf
+  refine ⟨h63, rangeRep_nil img 0 _ (by omega), ?_, ?_⟩
+  · intro i hi
+    obtain ⟨a, b, _⟩ := hS i hi
+    exact ⟨rangeRep_nil img _ _ a, fun h => rangeRep_nil img _ _ (b h)⟩
+  · intro j hj
+    obtain ⟨a, b, _⟩ := hP j hj
+    exact ⟨rangeRep_nil img _ _ a, fun h => rangeRep_nil img _ _ (b h)⟩
+
+/-- section `i` as seen through a loader that used table `tr` on container `cont` -/
+def SectionSpecT (img : Bytes) (tr : List Trans) (cont : Bytes) (i : Nat) (b : SecBuf) : Prop :=
+  b.index = i ∧
+  b.nameOff.toNat = sh img i "sh_name" ∧ b.stype.toNat = sh img i "sh_type" ∧
+  b.flags.toNat = sh img i "sh_flags" ∧ b.addr.toNat = sh img i "sh_addr" ∧
+  b.offset.toNat = sh img i "sh_offset" ∧ b.size.toNat = sh img i "sh_size" ∧
+  b.link.toNat = sh img i "sh_link" ∧ b.info.toNat = sh img i "sh_info" ∧
+  b.addrAlign.toNat = sh img i "sh_addralign" ∧ b.entSize.toNat = sh img i "sh_entsize" ∧
+  b.name = secName img i ∧
+  ∀ ls : LoadSt, ls.st.data = cont → secView (clsOf img) tr ls b = secFileBytes img i
+
+def SegmentSpecT (img : Bytes) (tr : List Trans) (cont : Bytes) (j : Nat) (g : Seg) : Prop :=
+  g.index = j ∧
+  g.stype.toNat = ph img j "p_type" ∧ g.flags.toNat = ph img j "p_flags" ∧
+  g.offset.toNat = ph img j "p_offset" ∧ g.vaddr.toNat = ph img j "p_vaddr" ∧
+  g.paddr.toNat = ph img j "p_paddr" ∧ g.filesz.toNat = ph img j "p_filesz" ∧
+  g.memsz.toNat = ph img j "p_memsz" ∧ g.align.toNat = ph img j "p_align" ∧
+  g.secs.map (·.toNat) = members img j ∧
+  ∀ ls : LoadSt, ls.st.data = cont → segView (clsOf img) tr ls g = segFileBytes img j
+
+def LoadSpecT (img : Bytes) (tr : List Trans) (cont : Bytes) (r : LoadRes) : Prop :=
+  r.ok = true ∧ r.obj.cls = clsOf img ∧ r.obj.enc = encOf img ∧
+  (∃ h, r.obj.hdr = some h ∧ HeaderSpec img h) ∧
+  r.obj.stream.data = cont ∧ r.obj.stream.eof = false ∧ r.obj.stream.fail = false ∧
+  r.obj.secs.length = eh img "e_shnum" ∧
+  (∀ i (hi : i < r.obj.secs.length), SectionSpecT img tr cont i r.obj.secs[i]) ∧
+  r.obj.segs.length = eh img "e_phnum" ∧
+  (∀ j (hj : j < r.obj.segs.length), SegmentSpecT img tr cont j r.obj.segs[j])
+
+/-- the plain specification is the instance `tr = []`, `cont = img` -/
+theorem loadSpecT_of_plain (img : Bytes) (r : LoadRes) (h : LoadSpec img r) : LoadSpecT img [] img r := by
+  obtain ⟨a1, a2, a3, a4, a5, a6, a7, a8, a9, a10, a11⟩ := h
+  refine ⟨a1, a2, a3, a4, a5, a6, a7, a8, ?_, a10, ?_⟩
+  · intro i hi
+    obtain ⟨x0, x1, x2, x3, x4, x5, x6, x7, x8, x9, x10, x11, x12⟩ := a9 i hi
+    exact ⟨x0, x1, x2, x3, x4, x5, x6, x7, x8, x9, x10, x11, x12⟩
+  · intro j hj
+    obtain ⟨x0, x1, x2, x3, x4, x5, x6, x7, x8, x9, x10⟩ := a11 j hj
+    exact ⟨x0, x1, x2, x3, x4, x5, x6, x7, x8, x9, x10⟩
+
+theorem SectionSpecT_of_SecStT (img : Bytes) (tr : List Trans) (cont : Bytes) (isLazy : Bool) (i : Nat)
+    (res : Bool) (b : SecBuf)
+    (h63c : cont.length < 9223372036854775808) (h63i : img.length < 9223372036854775808)
+    (hk : shBase img i + shdrSize (clsOf img) ≤ img.length)
+    (hin : SecRep cont tr img (secHdr (clsOf img) (encOf img) img (shBase img i) isLazy i))
+    (hb : SecStT (clsOf img) (encOf img) tr cont.length img (shBase img i) isLazy i res (secName img i) b) :
+    SectionSpecT img tr cont i b := by
+  obtain ⟨f1, f2, f3, f4, f5, f6, f7, f8, f9, f10⟩ :=
+    secHdr_bridge img (clsOf img) (encOf img) (shBase img i) isLazy i hk
+  have hidx : (secHdr (clsOf img) (encOf img) img (shBase img i) isLazy i).index = i := by
+    simp [secHdr, secInit]
+  obtain ⟨fd, L, hbe, hL⟩ := id hb
+  refine ⟨by rw [hbe]; exact hidx, by rw [hbe]; exact f1, by rw [hbe]; exact f2, by rw [hbe]; exact f3,
+    by rw [hbe]; exact f4, by rw [hbe]; exact f5, by rw [hbe]; exact f6, by rw [hbe]; exact f7,
+    by rw [hbe]; exact f8, by rw [hbe]; exact f9, by rw [hbe]; exact f10, by rw [hbe], ?_⟩
+  intro ls hd
+  obtain ⟨⟨fd', L', hg, _⟩, _⟩ := secGetData_SecStT _ _ tr cont img _ isLazy i res _ b ls hd h63c h63i hin hb
+  unfold secView
+  rw [hg]
+  simp only [if_true]
+  have hin' : isNullOrNobitsTy (secHdr (clsOf img) (encOf img) img (shBase img i) isLazy i).stype = false →
+      (secHdr (clsOf img) (encOf img) img (shBase img i) isLazy i).offset.toNat +
+      (secHdr (clsOf img) (encOf img) img (shBase img i) isLazy i).size.toNat ≤ img.length :=
+    fun h => (hin h).2.2.1
+  show List.take (secHdr (clsOf img) (encOf img) img (shBase img i) isLazy i).size.toNat _ = _
+  rw [secData_take img _ hin', secBytes_bridge img isLazy i hk]
+
+theorem SegmentSpecT_of_segFinalT (img : Bytes) (tr : List Trans) (cont : Bytes) (isLazy : Bool) (j : Nat)
+    (secs : List SecBuf)
+    (h63c : cont.length < 9223372036854775808) (h63i : img.length < 9223372036854775808)
+    (hk : phBase img j + phdrSize (clsOf img) ≤ img.length)
+    (hin : SegRep cont tr img (segHdr (clsOf img) (encOf img) img (phBase img j) isLazy))
+    (hw1 : ph img j "p_vaddr" + ph img j "p_memsz" < 18446744073709551616)
+    (hw2 : ph img j "p_offset" + ph img j "p_filesz" < 18446744073709551616)
+    (hlen : secs.length = eh img "e_shnum") (hn : eh img "e_shnum" < 65536)
+    (hsecs : ∀ i (h : i < secs.length), SectionSpecT img tr cont i secs[i] ∧
+      sh img i "sh_addr" + sh img i "sh_size" < 18446744073709551616 ∧
+      sh img i "sh_offset" + sh img i "sh_size" < 18446744073709551616) :
+    SegmentSpecT img tr cont j (segFinalT (clsOf img) (encOf img) tr cont.length img (phBase img j) isLazy j secs) := by
+  obtain ⟨g1, g2, g3, g4, g5, g6, g7, g8⟩ := segHdr_bridge img (clsOf img) (encOf img) (phBase img j) isLazy hk
+  refine ⟨rfl, g1, g2, g3, g4, g5, g6, g7, g8, ?_, ?_⟩
+  · show ((secs.filter (memberOf (segHdr (clsOf img) (encOf img) img (phBase img j) isLazy))).map
+        (fun b => BitVec.ofNat 16 b.index)).map (·.toNat) = members img j
+    rw [List.map_map]
+    unfold members
+    rw [← hlen]
+    apply filter_index_range
+    · intro i h
+      have := (hsecs i h).1.1
+      simp only [Function.comp, this, BitVec.toNat_ofNat, Nat.reducePow]
+      omega
+    · intro i h
+      obtain ⟨⟨_, _, _, s3, s4, s5, s6, _⟩, w1, w2⟩ := hsecs i h
+      rw [member_eq_spec _ secs[i] (by rw [s4, s6]; exact w1) (by rw [s5, s6]; exact w2)
+        (by rw [g4, g7]; exact hw1) (by rw [g3, g6]; exact hw2)]
+      rw [s3, s4, s5, s6, g1, g3, g4, g6, g7]
+      rfl
+  · intro ls hd
+    have h := segGetData_segFinalT (clsOf img) (encOf img) tr cont img (phBase img j) isLazy j secs ls hd h63c h63i hin
+    unfold segView
+    rw [h.1]
+    have hin' : SegInside img.length (segHdr (clsOf img) (encOf img) img (phBase img j) isLazy) :=
+      fun hs => (hin hs).2.2.1
+    exact segData_take img j isLazy hk hin'
+
+/-- **C02 through a translation table** : a well-formed image, loaded from a container that
+    represents it through the table, shows exactly what the specification says is in the image -/
+theorem load_eq_spec_tr (img cont : Bytes) (tr : List Trans) (o : Obj) (k : StreamKind) (isLazy : Bool)
+    (htr : o.trans = tr) (hwf : WellFormedImage img) (hrep : Represents cont tr img) :
+    ∃ r : LoadRes, load o { data := cont, kind := k } isLazy = .ok r ∧ LoadSpecT img tr cont r := by
+  obtain ⟨hmag, hcls, hdat, hehs, h63, hshent, hphent, hS, hP, hndx, hnames⟩ := hwf
+  obtain ⟨h63c, rE, rS, rP⟩ := hrep
+  have hsz := sizes_eq (clsOf img)
+  rw [← hsz.1] at hehs rE
+  rw [← hsz.2.1] at hshent hS rS
+  rw [← hsz.2.2] at hphent hP rP
+  obtain ⟨m0, m1, m2, m3⟩ := magic_gate img hmag
+  subst htr
+  have hgate := load_gate_rep o { data := cont, kind := k } isLazy (clsOf img) (encOf img) img rfl rfl
+    m0 m1 m2 m3 (cls_gate img hcls) (enc_gate img hdat) rE
+  simp only [] at hgate
+  obtain ⟨e1, e2, e3, e4, e5, e6, e7, e8, e9, e10, e11, e12, e13⟩ := ehdr_bridge img (clsOf img) (encOf img) hehs
+  have E : ∀ f, Spec.get (Spec.ehdrL (clsOf img)) (encOf img) img 0 f = eh img f := fun _ => rfl
+  rw [E] at e1 e2 e3 e4 e5 e6 e7 e8 e9 e10 e11 e12 e13
+  have hshnum : (Hdr.e_shnum (clsOf img) (encOf img) (slice img 0 (ehdrSize (clsOf img)))).toNat = eh img "e_shnum" := e12
+  have hphnum : (Hdr.e_phnum (clsOf img) (encOf img) (slice img 0 (ehdrSize (clsOf img)))).toNat = eh img "e_phnum" := e10
+  have hshb : ∀ j, (Hdr.e_shoff (clsOf img) (encOf img) (slice img 0 (ehdrSize (clsOf img)))).toNat +
+      j * (Hdr.e_shentsize (clsOf img) (encOf img) (slice img 0 (ehdrSize (clsOf img)))).toNat = shBase img j := by
+    intro j; rw [e6, e11]; rfl
+  have hphb : ∀ j, (Hdr.e_phoff (clsOf img) (encOf img) (slice img 0 (ehdrSize (clsOf img)))).toNat +
+      j * (Hdr.e_phentsize (clsOf img) (encOf img) (slice img 0 (ehdrSize (clsOf img)))).toNat = phBase img j := by
+    intro j; rw [e5, e9]; rfl
+  have hcb := identB img (clsOf img) hehs
+  have hc1 : BitVec.ofNat 8 (identByte img Spec.EI_CLASS) = 1#8 → clsOf img = .c32 := by
+    intro h
+    rcases hcls with h' | h'
+    · simp [clsOf, h']; decide
+    · rw [h'] at h; exact absurd h (by decide)
+  have hc2 : BitVec.ofNat 8 (identByte img Spec.EI_CLASS) = 2#8 → clsOf img = .c64 := by
+    intro h
+    rcases hcls with h' | h'
+    · rw [h'] at h; exact absurd h (by decide)
+    · simp [clsOf, h']
+  have hbadS : load_sections_entsize_bad (Hdr.e_shnum (clsOf img) (encOf img) (slice img 0 (ehdrSize (clsOf img))))
+      (Hdr.ident (slice img 0 (ehdrSize (clsOf img))) Gen.EI_CLASS)
+      (Hdr.e_shentsize (clsOf img) (encOf img) (slice img 0 (ehdrSize (clsOf img)))) = false := by
+    unfold load_sections_entsize_bad
+    apply entsize_ok _ _ _ sizeof_Elf32_Shdr sizeof_Elf64_Shdr (by decide) (by decide)
+    intro hn
+    rw [hshnum] at hn
+    have := hshent hn
+    rw [← e11] at this
+    rw [hcb]
+    constructor
+    · intro h; have hcl := hc1 h; rw [hcl] at this ⊢; exact this
+    · intro h; have hcl := hc2 h; rw [hcl] at this ⊢; exact this
+  have hbadP : load_segments_entsize_bad (Hdr.e_phnum (clsOf img) (encOf img) (slice img 0 (ehdrSize (clsOf img))))
+      (Hdr.ident (slice img 0 (ehdrSize (clsOf img))) Gen.EI_CLASS)
+      (Hdr.e_phentsize (clsOf img) (encOf img) (slice img 0 (ehdrSize (clsOf img)))) = false := by
+    unfold load_segments_entsize_bad
+    apply entsize_ok _ _ _ sizeof_Elf32_Phdr sizeof_Elf64_Phdr (by decide) (by decide)
+    intro hn
+    rw [hphnum] at hn
+    have := hphent hn
+    rw [← e9] at this
+    rw [hcb]
+    constructor
+    · intro h; have hcl := hc1 h; rw [hcl] at this ⊢; exact this
+    · intro h; have hcl := hc2 h; rw [hcl] at this ⊢; exact this
+  have hinS : ∀ j, j < eh img "e_shnum" →
+      SecRep cont o.trans img (secHdr (clsOf img) (encOf img) img (shBase img j) isLazy j) := by
+    intro j hj hty
+    obtain ⟨hk, _, _, _⟩ := hS j hj
+    obtain ⟨_, b2, _, _, b5, b6, _⟩ := secHdr_bridge img (clsOf img) (encOf img) (shBase img j) isLazy j hk
+    rw [isNullOrNobits_eq, b2] at hty
+    rw [b5, b6]
+    have : occupiesFile (sh img j "sh_type") = true := by unfold sh; simpa using hty
+    exact (rS j hj).2 this
+  have hinP : ∀ j, j < eh img "e_phnum" →
+      SegRep cont o.trans img (segHdr (clsOf img) (encOf img) img (phBase img j) isLazy) := by
+    intro j hj hsk
+    obtain ⟨hk, _, _, _⟩ := hP j hj
+    obtain ⟨b1, _, b3, _, _, b6, _, _⟩ := segHdr_bridge img (clsOf img) (encOf img) (phBase img j) isLazy hk
+    rw [segSkip_eq, b1, b6] at hsk
+    rw [b3, b6]
+    apply (rP j hj).2
+    unfold segHasData ph
+    simp only [bne, ← Bool.not_or, hsk, Bool.not_false]
+  have hbody := loadBody_rep
+    { o with secs := [], segs := [], cls := clsOf img, enc := encOf img,
+             hdr := some (slice img 0 (ehdrSize (clsOf img))) }
+    (clsOf img) (encOf img) isLazy (slice img 0 (ehdrSize (clsOf img))) cont img
+    { data := cont, pos := (trApply o.trans 0).toNat + ehdrSize (clsOf img), gcount := ehdrSize (clsOf img), kind := k }
+    rfl rfl rfl h63c h63 hbadS hbadP
+    (fun j hj => by rw [hshnum] at hj; rw [hshb]; exact ⟨(rS j hj).1, hinS j hj⟩)
+    (fun j hj => by rw [hphnum] at hj; rw [hphb]; exact ⟨(rP j hj).1, hinP j hj⟩)
+    (by rw [e13, hshnum]; exact hndx)
+  obtain ⟨r, hr, r1, r2, r3, r4, r5, r6, r7, r8, r9, r10, r11, r12, r13⟩ := hbody
+  have hsecAll : ∀ i (hi : i < r.obj.secs.length), SectionSpecT img o.trans cont i r.obj.secs[i] := by
+    intro i hi
+    have hi' : i < eh img "e_shnum" := by rw [r10, hshnum] at hi; exact hi
+    obtain ⟨res, hst, _⟩ := r11 i hi
+    rw [hshb] at hst
+    apply SectionSpecT_of_SecStT img o.trans cont isLazy i res _ h63c h63 (hS i hi').1 (hinS i hi')
+    have hname : nameOf (strtabOf (clsOf img) (encOf img) img
+          (Hdr.e_shoff (clsOf img) (encOf img) (slice img 0 (ehdrSize (clsOf img)))).toNat
+          (Hdr.e_shentsize (clsOf img) (encOf img) (slice img 0 (ehdrSize (clsOf img)))).toNat isLazy
+          (Hdr.e_shstrndx (clsOf img) (encOf img) (slice img 0 (ehdrSize (clsOf img)))).toNat)
+        (secHdr (clsOf img) (encOf img) img (shBase img i) isLazy i).nameOff.toNat = secName img i := by
+      have b1 := (secHdr_bridge img (clsOf img) (encOf img) (shBase img i) isLazy i (hS i hi').1).1
+      unfold nameOf strtabOf secName shstrtab
+      rw [e13, b1]
+      by_cases hz : eh img "e_shstrndx" = 0
+      · rw [hz]; rfl
+      · have hz' : ¬ eh img "e_shstrndx" = Spec.SHN_UNDEF := hz
+        have hlt : eh img "e_shstrndx" < eh img "e_shnum" := by
+          rcases hndx with h | h
+          · exact absurd h hz'
+          · exact h
+        simp only [hz, hz', if_false]
+        rw [hshb, secBytes_bridge img isLazy _ (hS _ hlt).1]
+        rfl
+    rw [hname] at hst
+    exact hst
+  refine ⟨r, by rw [hgate]; exact hr, r1, r2, r3, ⟨_, r4, ?_⟩, r6, r7, r8, by rw [r10, hshnum], hsecAll,
+    by rw [r12, hphnum], ?_⟩
+  · exact ⟨by rw [hsz.1], e1, e2, e3, e4, e5, e6, e7, e8, e9, e10, e11, e12, e13⟩
+  · intro j hj
+    have hj' : j < eh img "e_phnum" := by rw [r12, hphnum] at hj; exact hj
+    rw [r13 j hj, hphb]
+    have hn16 : eh img "e_shnum" < 65536 := by
+      rw [← hshnum]; exact (Hdr.e_shnum _ _ _).isLt
+    apply SegmentSpecT_of_segFinalT img o.trans cont isLazy j r.obj.secs h63c h63 (hP j hj').1 (hinP j hj')
+      (hP j hj').2.2.1 (hP j hj').2.2.2 (by rw [r10, hshnum]) hn16
+    intro i hi
+    have hi' : i < eh img "e_shnum" := by rw [r10, hshnum] at hi; exact hi
+    exact ⟨hsecAll i hi, (hS i hi').2.2.1, (hS i hi').2.2.2⟩
+
+/-- a plainly loaded object `a` (image `img`) and an object `b` loaded through table `tr` from
+    container `cont` show the same things -/
+def ViewEqT (img cont : Bytes) (tr : List Trans) (a b : Obj) : Prop :=
+  a.cls = b.cls ∧ a.enc = b.enc ∧ a.hdr = b.hdr ∧
+  a.secs.length = b.secs.length ∧ a.segs.length = b.segs.length ∧
+  (∀ i (h1 : i < a.secs.length) (h2 : i < b.secs.length),
+    secFields a.secs[i] = secFields b.secs[i] ∧
+    ∀ ls1 ls2 : LoadSt, ls1.st.data = img → ls2.st.data = cont →
+      secView a.cls [] ls1 a.secs[i] = secView b.cls tr ls2 b.secs[i]) ∧
+  (∀ j (h1 : j < a.segs.length) (h2 : j < b.segs.length),
+    segFields a.segs[j] = segFields b.segs[j] ∧
+    ∀ ls1 ls2 : LoadSt, ls1.st.data = img → ls2.st.data = cont →
+      segView a.cls [] ls1 a.segs[j] = segView b.cls tr ls2 b.segs[j])
+
+theorem viewEqT_of_spec (img cont : Bytes) (tr : List Trans) (ra rb : LoadRes)
+    (ha : LoadSpecT img [] img ra) (hb : LoadSpecT img tr cont rb) :
+    ra.ok = rb.ok ∧ ViewEqT img cont tr ra.obj rb.obj := by
+  obtain ⟨a1, a2, a3, ⟨ah, a4, a5⟩, _, _, _, a6, a7, a8, a9⟩ := ha
+  obtain ⟨b1, b2, b3, ⟨bh, b4, b5⟩, _, _, _, b6, b7, b8, b9⟩ := hb
+  refine ⟨by rw [a1, b1], by rw [a2, b2], by rw [a3, b3], by rw [a4, b4, a5.1, b5.1], by rw [a6, b6],
+    by rw [a8, b8], ?_, ?_⟩
+  · intro i h1 h2
+    obtain ⟨x0, x1, x2, x3, x4, x5, x6, x7, x8, x9, x10, x11, x12⟩ := a7 i h1
+    obtain ⟨y0, y1, y2, y3, y4, y5, y6, y7, y8, y9, y10, y11, y12⟩ := b7 i h2
+    refine ⟨?_, ?_⟩
+    · simp only [secFields, Prod.mk.injEq]
+      exact ⟨by rw [x0, y0], by rw [x11, y11], bv_eq x1 y1, bv_eq x2 y2, bv_eq x3 y3, bv_eq x4 y4, bv_eq x5 y5,
+        bv_eq x6 y6, bv_eq x7 y7, bv_eq x8 y8, bv_eq x9 y9, bv_eq x10 y10⟩
+    · intro ls1 ls2 h1 h2
+      rw [a2, b2, x12 ls1 h1, y12 ls2 h2]
+  · intro j h1 h2
+    obtain ⟨x0, x1, x2, x3, x4, x5, x6, x7, x8, x9, x10⟩ := a9 j h1
+    obtain ⟨y0, y1, y2, y3, y4, y5, y6, y7, y8, y9, y10⟩ := b9 j h2
+    refine ⟨?_, ?_⟩
+    · simp only [segFields, Prod.mk.injEq]
+      refine ⟨by rw [x0, y0], bv_eq x1 y1, bv_eq x2 y2, bv_eq x3 y3, bv_eq x4 y4, bv_eq x5 y5, bv_eq x6 y6,
+        bv_eq x7 y7, bv_eq x8 y8, ?_⟩
+      exact map_toNat_inj _ _ (x9.trans y9.symm)
+    · intro ls1 ls2 h1 h2
+      rw [a2, b2, x10 ls1 h1, y10 ls2 h2]
+
+/-- **C15, translation part** : an object loaded from a container stream in which the image's
+    pieces sit at displaced positions, with a table mapping original offsets to those positions,
+    shows the same as one loaded from the plain image — every header getter, every section and
+    segment field, names, members, and the data delivered by requests on streams in any state;
+    eager or lazy, string- or file-backed, independently on both sides. -/
+theorem translated_eq_plain (img cont : Bytes) (tr : List Trans) (o ot : Obj) (k k' : StreamKind)
+    (isLazy isLazy' : Bool) (h1 : o.trans = []) (h2 : ot.trans = tr)
+    (hwf : WellFormedImage img) (hrep : Represents cont tr img) :
+    ∃ rp rt : LoadRes, load o { data := img, kind := k } isLazy = .ok rp ∧
+      load ot { data := cont, kind := k' } isLazy' = .ok rt ∧
+      rp.ok = rt.ok ∧ ViewEqT img cont tr rp.obj rt.obj := by
+  obtain ⟨rp, hp, sp⟩ := load_eq_spec img o k isLazy h1 hwf
+  obtain ⟨rt, ht, st⟩ := load_eq_spec_tr img cont tr ot k' isLazy' h2 hwf hrep
+  exact ⟨rp, rt, hp, ht, viewEqT_of_spec img cont tr rp rt (loadSpecT_of_plain img rp sp) st⟩
+
+/-! non-vacuity: the well-formed image of C02, displaced by 7 bytes inside a container -/
+
+instance (cont : Bytes) (tr : List Trans) (img : Bytes) (off n : Nat) : Decidable (RangeRep cont tr img off n) := by
+  unfold RangeRep; infer_instance
+instance (cont : Bytes) (tr : List Trans) (img : Bytes) : Decidable (Represents cont tr img) := by
+  unfold Represents; infer_instance
+
+def contImage : Bytes :=
+  [170, 170, 170, 170, 170, 170, 170, 127, 69, 76, 70, 1, 1, 1, 0, 0, 0, 0, 0, 0, 0, 0, 0, 2, 0, 3, 0, 1, 0, 0, 0, 0, 16, 0, 0, 52, 0, 0, 0, 108, 0, 0, 0, 0, 0, 0, 0, 52, 0, 32, 0, 1, 0, 40, 0, 3, 0, 2, 0, 1, 0, 0, 0, 84, 0, 0, 0, 0, 16, 0, 0, 0, 16, 0, 0, 4, 0, 0, 0, 4, 0, 0, 0, 5, 0, 0, 0, 4, 0, 0, 0, 1, 2, 3, 4, 0, 46, 116, 101, 120, 116, 0, 46, 115, 104, 115, 116, 114, 116, 97, 98, 0, 0, 0, 0, 0, 0, 0, 0, 0, 0, 0, 0, 0, 0, 0, 0, 0, 0, 0, 0, 0, 0, 0, 0, 0, 0, 0, 0, 0, 0, 0, 0, 0, 0, 0, 0, 0, 0, 0, 0, 0, 0, 0, 0, 1, 0, 0, 0, 1, 0, 0, 0, 6, 0, 0, 0, 0, 16, 0, 0, 84, 0, 0, 0, 4, 0, 0, 0, 0, 0, 0, 0, 0, 0, 0, 0, 4, 0, 0, 0, 0, 0, 0, 0, 7, 0, 0, 0, 3, 0, 0, 0, 0, 0, 0, 0, 0, 0, 0, 0, 88, 0, 0, 0, 17, 0, 0, 0, 0, 0, 0, 0, 0, 0, 0, 0, 1, 0, 0, 0, 0, 0, 0, 0, 85, 85, 85]
+def contTable : List Trans := [{ start := 0, size := 228, mappedTo := 7 }]
+
+example : Represents contImage contTable wfImage := by decide +kernel
+
+example : ∃ rp rt : LoadRes, load {} { data := wfImage } false = .ok rp ∧
+    load { trans := contTable } { data := contImage } true = .ok rt ∧
+    rp.ok = rt.ok ∧ ViewEqT wfImage contImage contTable rp.obj rt.obj :=
+  translated_eq_plain wfImage contImage contTable {} { trans := contTable } .str .str false true rfl rfl
+    (by decide +kernel) (by decide +kernel)
 
 end ElfioVerif.C15
